@@ -255,7 +255,8 @@ def run_exchange(ctx, rng, fe, ops, script, jitter=False):
         await asyncio.sleep(0.005)
         if fe == 'v1':
             for verb, prefix in ops:
-                if verb == 'unregister':
+                # (half of the prefixes to withdraw have a handler attached; the others were announced without one: register(name, None))
+                if verb == 'unregister' and rng.random() < 0.5:
                     try:
                         the_app.set_interest_filter(prefix, lambda *a: None)
                     except ValueError:
